@@ -68,6 +68,9 @@ func (u *Unit) funcDesignators(f *ssa.Function) []string {
 	if n, ok := u.P.FuncNames[f]; ok && f.Pkg == nil {
 		out = append(out, n)
 	}
+	for _, d := range out {
+		out = append(out, u.P.DesigGroups[d]...)
+	}
 	return out
 }
 
@@ -263,14 +266,29 @@ func (u *Unit) execCallVals(st *State, fr *Frame, site ssa.Instruction, c *ssa.C
 			u.inlineCall(st, fr, site, callee, nil, args, desigs, k)
 			return
 		}
-		// 4. in-repo function without a contract: unknown effects
+		// 4. in-repo function without a contract (a helper somebody extracted): its body is
+		// executed in place, which is exact as long as it has no loop and does not recurse;
+		// where it is not, what is lost is remembered on the path (State.Weak) and a failure
+		// there is reported as undecided ("needs a contract"), not as a violation
 		if callee.Pkg != nil && strings.HasPrefix(callee.Pkg.Pkg.Path(), modulePath) {
-			u.lockSetCall(st, fr, site, callee, nil, nil)
 			if u.uncontracted == nil {
 				u.uncontracted = map[string]*ssa.Function{}
 			}
 			u.uncontracted[callee.Name()] = callee
-			u.abstracted("call to in-repo function without contract: " + callee.String())
+			recursive := false
+			for f := fr; f != nil; f = f.Parent {
+				if f.Fn == callee {
+					recursive = true
+				}
+			}
+			if callee.Blocks != nil && !recursive && fr.Depth < 6 {
+				u.abstracted("in-repo function without contract, body executed in place: " + callee.String())
+				u.inlineCall(st, fr, site, callee, nil, args, desigs, k)
+				return
+			}
+			u.lockSetCall(st, fr, site, callee, nil, nil)
+			u.abstracted("call to in-repo function without contract (results and heap havocked): " + callee.String())
+			st.weaken("call to " + callee.String() + ", which has no contract and cannot be executed in place")
 			u.unknownCall(st, fr, site, sig, desigs, argT, true, k)
 			return
 		}
